@@ -46,7 +46,7 @@ def op_sexp(op):
         return '(clone %d)' % (1 if op[1] else 0)
     if k == 'eq':
         if isinstance(op[1], int):
-            return '(eq %d)' % op[1]
+            return '(eq %d %d)' % (op[1], op[2])
         return '(eq%s)' % ''.join(' ' + (comp_str(x) if isinstance(x, tuple) or x in ('hole', 'ph') else str(x)) for x in op[1])
     if len(op) == 1:
         return '(%s)' % k
@@ -284,7 +284,7 @@ class Real(object):
             if k == 'eq':
                 if K.kind == 'choice':
                     other = K.schema.clone()
-                    other.setComponentByPosition(0, op[1])
+                    other.setComponentByPosition(op[1], op[2])
                     return '(b %d)' % (1 if o == other else 0)
                 other = K.schema.clone()
                 other.clear()
@@ -966,9 +966,13 @@ class OptionProto(object):
                 return 'lib'
             if not self.alloc:
                 return '(b 0)'
-            if self.sel is None or self.sel[1] is None:
+            if self.sel is None:
                 return 'lib'
-            return '(b %d)' % (1 if self.sel[1] == op[1] else 0)
+            if self.sel[0] != op[1]:
+                return '(b 0)'          # another alternative: not equal, whatever the values
+            if self.sel[1] is None:
+                return 'lib'
+            return '(b %d)' % (1 if self.sel[1] == op[2] else 0)
         if k == 'encode':
             return 'unit'
         raise common.MachineryError('OptionProto: unknown op %r' % (op,))
